@@ -435,7 +435,7 @@ class SimCtl:
             stats = _json.dumps({"digest": self.model.digest(), "registry": self.model.registry_ok()}, sort_keys=True)
         return self.rec({"a": "Quiescent", "rs": sim.run_state.name, "rep": sim.replication_state.name,
                          "clock": self.conc.back(sim.simulator_time), "pending": pend, "pending_known": known,
-                         "alive": alive, "stats": stats, "executed": [list(x) for x in self.executed]})
+                         "alive": alive, "stats": stats, "want_stats": 0, "executed": [list(x) for x in self.executed]})
 
     def dispose(self):
         try:
